@@ -421,7 +421,7 @@ def run_scope(ctx, tree):
             open(p + "/counterexample.txt", "w").write(g.trace_text())
             json.dump(dict(kind="tlc", area="flow", module="Scope"), open(p + "/case.json", "w"))
             ctx.report("tlc:Scope:%s" % g.violated, "chibicc's scope chain (Level I) binds differently from the innermost-visible rule (Level A)", p)
-        got = vt.read_ndjson(out)
+        got = sorted(vt.read_ndjson(out), key=lambda c: json.dumps(c, sort_keys=True))
         if mo == 4:
             got = [h for h in got if sum(1 for ev in h["h"] if ev["e"] == "open") == 4]
         hs += vt.subsample(got, ctx.seed, stride)
@@ -555,7 +555,8 @@ def run_flow(ctx, tree):
             open(p + "/counterexample.txt", "w").write(g.trace_text())
             json.dump(dict(kind="tlc", area="flow", module="CFlow", profile=name), open(p + "/case.json", "w"))
             ctx.report("tlc:CFlow:%s:%s" % (name, g.violated), "chibicc's lowering (Level I) differs from the abstract machine (Level A)", p)
-        progs[name] = vt.read_ndjson(out)
+        # TLC workers append in no fixed order: sort, so that a seed selects the same programs in every run
+        progs[name] = sorted(vt.read_ndjson(out), key=lambda c: json.dumps(c, sort_keys=True))
         if len(progs[name]) < 50:
             raise Infra("CFlow profile %s wrote only %d programs" % (name, len(progs[name])))
     ctx.phase("CFlow profiles")
@@ -590,7 +591,7 @@ def run(ctx):
             c["prof"] = name
             allp.append(c)
     sel = vt.subsample(allp, ctx.seed, 3 if q else 1)
-    mid = sel[len(sel) // 2]
+    mid = max(sel[:400], key=lambda c: len(c["tr"]))
     ctx.sample(dict(kind="flow", profile=mid["prof"], c_source=render_flow(0, mid), expected=expect_flow(0, mid)))
     compare(ctx, tree, sel, render_flow, expect_flow, main_flow, "flow", flow_sig,
             nontrivial=lambda c: len(c["p"]) >= 3)
